@@ -1180,7 +1180,7 @@ fn gen_text(r: &mut Rng, lang: &str, allow_large: bool) -> String {
 
 pub fn gen_world(seed: u64) -> LspWorld {
   let mut r = Rng::stream(seed, "world");
-  let mut project = cli_world::gen_world(&mut r, &GenOpts { max_files: 0, allow_special: false, with_tests: false, fix_heavy: false, order_sensitive_rules: true, hard_links: false, injections: false });
+  let mut project = cli_world::gen_world(&mut r, &GenOpts { max_files: 0, allow_special: false, with_tests: false, fix_heavy: false, order_sensitive_rules: true, hard_links: false, injections: false, lang_globs: false });
   project.files.clear();
   project.ignore_file = None;
   let rule_langs = project.languages();
